@@ -94,7 +94,8 @@ RawBodies ==
       [] OTHER -> {"{{ r }}"}
 Conds == IF IsLex THEN {"c1"} ELSE {"c1", "c2"}
 Iters == {"xs", "ys"}
-Includes == IF IsLex THEN {"include 'inc'"} ELSE {"include 'inc'", "include 'nope'", "include 'nope' ignore missing", "include 'inc' without context"}
+(* not generated: `include ... without context` (inside a macro BOTH engines print a generator repr with its address) *)
+Includes == IF IsLex THEN {"include 'inc'"} ELSE {"include 'inc'", "include 'nope'", "include 'nope' ignore missing"}
 
 EndName(top) ==
     CASE top \in {"if", "ifE"} -> "endif" [] top \in {"for", "forE"} -> "endfor" [] top = "setblock" -> "endset"
